@@ -20,12 +20,13 @@ import (
 	"fmt"
 
 	"github.com/biogo/biogo/alphabet"
+	"github.com/biogo/biogo/io/seqio/fasta"
 
 	"verif/harness/hx"
 )
 
 func init() {
-	hx.Register(&hx.Prop{ID: "C03", Part: "seq", Ops: []string{"fa3", "fq3"}, Gen: c03seqGen, Exec: c03seqExec, Shrink: c03seqShrink})
+	hx.Register(&hx.Prop{ID: "C03", Part: "seq", Ops: []string{"fa3", "fq3", "fap3"}, Gen: c03seqGen, Exec: c03seqExec, Shrink: c03seqShrink})
 }
 
 func c03seqExec(input string) string {
@@ -33,6 +34,8 @@ func c03seqExec(input string) string {
 	switch f[0] {
 	case "fa3":
 		return sioReadFasta(hx.Unhex(f[1]), "s", alphabet.DNA)
+	case "fap3": // the FASTA reader with user-set IDPrefix / SeqPrefix
+		return sioReadFastaPfx(hx.Unhex(f[3]), "s", alphabet.DNA, hx.Unhex(f[1]), hx.Unhex(f[2]))
 	case "fq3":
 		if f[1] == "s" {
 			return sioReadFastq(hx.Unhex(f[2]), "s", alphabet.DNA, alphabet.Sanger)
@@ -237,6 +240,38 @@ func c03seqGen(g *hx.Gen) {
 		for off := 0; off <= len(data) && !g.Done(); off++ {
 			c03seqEmit(g, fq, tmpl, data[:off])
 		}
+	}
+	// the FASTA reader with user-set prefixes: files written with the same prefixes (as
+	// gff.Writer does for inline sequences), their mutations, and lines made of prefix pieces
+	for k := g.Scale(1500, 30000); k > 0 && !g.Done(); k-- {
+		pp := sioPrefixPairs[g.Intn(len(sioPrefixPairs))]
+		var d []byte
+		if g.Chance(0.6) {
+			alpha := sioAlphabets[g.Intn(len(sioAlphabets))]
+			width := g.Pick(1, 2, 3, 5, 60)
+			var buf bytes.Buffer
+			w := fasta.NewWriter(&buf, width)
+			w.IDPrefix, w.SeqPrefix = []byte(pp[0]), []byte(pp[1])
+			for _, r := range sioRecords(g, alpha, width, false, alphabet.Sanger, 3) {
+				if len(r.letters) > 200 {
+					r.letters = r.letters[:200]
+				}
+				w.Write(sioSeq("s", r, builtinByName(alpha), alphabet.Sanger))
+			}
+			d = buf.Bytes()
+			if g.Chance(0.5) {
+				d = c03seqMutateBytes(g, d)
+			}
+		} else {
+			for i := g.Pick(1, 2, 3, 4); i > 0; i-- {
+				d = append(d, sioPickS(g, pp[0], pp[1], pp[0]+pp[1], "", " ", pp[0][:len(pp[0])/2])...)
+				for j := g.Pick(0, 1, 3, 8); j > 0; j-- {
+					d = append(d, c03seqByte(g))
+				}
+				d = append(d, sioPickS(g, "\n", "\r\n", "")...)
+			}
+		}
+		g.Casef("fap3 %s %s %s", hx.Hex([]byte(pp[0])), hx.Hex([]byte(pp[1])), hx.Hex(d))
 	}
 	n := g.Scale(30000, 400000)
 	for k := 0; k < n && !g.Done(); k++ {
